@@ -18,10 +18,10 @@ ASSUMPTIONS = ["group weights are given in sorted-key order of the groups that h
                "the square form of pcDelta_grouped_cross is only demanded for bins=0 (vector-valued entries have no 2-D form; the code raises there)",
                "cell text contains no '.' or '_' (C02's quantifier); float comparison rel 1e-9, NaN == NaN"]
 EXHAUSTIVE = {"quick": ["fixed witness table x every function x every option"], "thorough": ["fixed witness tables x every function x every option"]}
-REQUIRE = {"pc_conditional_cases": 13, "pc_conditional_weighted": 6, "pc_conditional_multi_on": 6, "pc_conditional_two_by": 2,
+REQUIRE = {"pc_conditional_cases": 12, "pc_conditional_weighted": 6, "pc_conditional_multi_on": 6, "pc_conditional_two_by": 2,
            "singleton_group_tables": 20, "pc_grouped_cross_cases": 5, "pcDelta_grouped_cases": 14, "pcDelta_grouped_bins0": 1,
-           "pcDelta_grouped_cross_condensed": 12, "pcDelta_grouped_cross_square_bins0": 2, "renyi_cases": 10, "renyi_conditional": 5,
-           "stdrenyi_cases": 4, "numeric_key_tables": 10, "cells_compared": 500}
+           "pcDelta_grouped_cross_condensed": 11, "pcDelta_grouped_cross_square_bins0": 2, "renyi_cases": 10, "renyi_conditional": 5,
+           "stdrenyi_cases": 4, "numeric_key_tables": 10, "cells_compared": 500, "weights_ndarray_reused": 3}
 SHARDS = {"quick": 4, "thorough": 16}
 
 
@@ -111,8 +111,29 @@ def k_pc_conditional(ctx, rows, cols, by, on, weights=None):
     if len(g) >= 2:
         ctx.nontriv(["pcc", rows, by, on, weights])
     ctx.sample("pc_conditional", {"rows": rows[:6], "by": by, "on": on, "weights": weights, "expected": want})
-    kw = {} if weights is None else {"group_weights": list(weights)}
+    import numpy as np
+    warr = None
+    if weights is None:
+        kw = {}
+    elif len(weights) % 2:
+        warr = np.array(weights, dtype=float)          # the caller's own array: must stay usable for a second call
+        kw = {"group_weights": warr}
+    else:
+        kw = {"group_weights": list(weights)}
     out = ctx.call(prs.pc_conditional, _df(rows, cols), by, on, **kw)
+    if warr is not None:
+        ctx.count("weights_ndarray_reused")
+        if warr.tolist() != [float(x) for x in weights]:
+            ctx.violation("pc_conditional:weights-modified", "the caller's group_weights array was modified", warr.tolist(), weights)
+        again = ctx.call(prs.pc_conditional, _df(rows, cols), by, on, group_weights=warr)
+        if not again.ok or not _eq(again.value, want):
+            ctx.violation("pc_conditional:weighted:second-call-differs", "a second call with the same weights array gives another value",
+                          again.describe(), want)
+        ent = ctx.call(prs.renyi2_entropy, _df(rows, cols), on, by=by, base=2.0, group_weights=warr)
+        want_e = float("nan") if want != want else (float("inf") if want == 0 else -math.log(want) / math.log(2.0))
+        if not ent.ok or not _eq(ent.value, want_e):
+            ctx.violation("renyi2_entropy:conditional:after-pc_conditional", "entropy with the same weights array is not -log2 of pc_conditional",
+                          ent.describe(), want_e)
     opt = ("weighted" if weights is not None else "uniform") + (":multi-on" if isinstance(on, list) else "")
     if not out.ok:
         ctx.violation(f"pc_conditional:{opt}:raised", "pc_conditional raised", out.describe(), want)
